@@ -15,11 +15,19 @@ FN = "AbsoluteSequence.quantise"
 
 
 def output_list_name(fn: ast.FunctionDef) -> str | None:
-    """The local list that becomes `self._messages` (last rebind)."""
+    """The local list that becomes `self._messages` (last rebind) -- directly, or filtered / copied on the way
+    (`self._messages = [m for i, m in enumerate(out) if ...]`): then the list the expression is built from."""
     name = None
     for n in walk_local(fn):
-        if isinstance(n, ast.Assign) and any(attr_chain(t) == ["self", "_messages"] for t in n.targets) and isinstance(n.value, ast.Name):
-            name = n.value.id
+        if isinstance(n, ast.Assign) and any(attr_chain(t) == ["self", "_messages"] for t in n.targets):
+            if isinstance(n.value, ast.Name):
+                name = n.value.id
+            else:
+                local_lists = [x.id for x in ast.walk(n.value) if isinstance(x, ast.Name) and isinstance(x.ctx, ast.Load)
+                               and any(isinstance(a, ast.Assign) and isinstance(a.value, (ast.List, ast.ListComp)) and any(isinstance(t, ast.Name) and t.id == x.id for t in a.targets)
+                                       for a in walk_local(fn))]
+                if local_lists:
+                    name = local_lists[0]
     return name
 
 
@@ -188,11 +196,23 @@ def compare_rules(ctx: Ctx, fi) -> None:
                     g = next((a for a in ancestors(c) if isinstance(a, ast.If)), None)
                     if g is not None and g in list(ast.walk(n)):
                         pos_sites.append((n.target.id, g, c))
+    # the same filter written as a comprehension: cand = [v for v in L if <test>]
+    for n in ast.walk(loop):
+        if isinstance(n, ast.Assign) and len(n.targets) == 1 and isinstance(n.targets[0], ast.Name) and isinstance(n.value, ast.ListComp) \
+                and len(n.value.generators) == 1 and isinstance(n.value.generators[0].target, ast.Name) and len(n.value.generators[0].ifs) == 1 \
+                and src(n.value.elt) == n.value.generators[0].target.id and "time" not in src(n.value.generators[0].iter):
+            gen = n.value.generators[0]
+            fake = ast.If(test=gen.ifs[0], body=[n], orelse=[])
+            ast.copy_location(fake, n)
+            pos_sites.append((gen.target.id, fake, n))
     ctx.floor("end-candidate filters (POS) in quantise", len(pos_sites), 1)
     for var, g, c in pos_sites:
         # FALLBACK: when the filter leaves nothing, the note's own start is the only candidate (the note collapses and is removed)
-        loop_for = next(a for a in ancestors(c) if isinstance(a, ast.For) and isinstance(a.target, ast.Name) and a.target.id == var)
-        cand = src(call_method(c)[0])
+        if isinstance(c, ast.Assign):
+            loop_for, cand = c, c.targets[0].id
+        else:
+            loop_for = next(a for a in ancestors(c) if isinstance(a, ast.For) and isinstance(a.target, ast.Name) and a.target.id == var)
+            cand = src(call_method(c)[0])
         blk = next((getattr(loop_for._parent, f) for f in ("body", "orelse") if loop_for in getattr(loop_for._parent, f, [])), [])
         fb = [x for x in blk[blk.index(loop_for) + 1:] if isinstance(x, ast.If)
               and any(isinstance(y, ast.Call) and call_method(y)[1] == "append" and src(call_method(y)[0]) == cand for z in x.body for y in ast.walk(z))]
@@ -251,17 +271,48 @@ def compare_rules(ctx: Ctx, fi) -> None:
                           message=f"`{short(g.test)}`: zero-length notes would survive, or proper notes be removed", file=fi.file, node=g)
     n_overlap = 0
     from ..model import _Canon
-    for g in [x for x in ast.walk(loop) if isinstance(x, ast.If) and x.orelse and ".time" in src(x.test)
-              and any(isinstance(c_, ast.Compare) and isinstance(c_.ops[0], (ast.In, ast.NotIn)) for c_ in ast.walk(x.test))]:
+    # a name bound to `table.get(key)`: `name is None` reads `key not in table`, `name[1]` reads `table[key][1]`
+    get_alias = {a.targets[0].id for a in ast.walk(loop) if isinstance(a, ast.Assign) and len(a.targets) == 1 and isinstance(a.targets[0], ast.Name)
+                 and isinstance(a.value, ast.Call) and call_method(a.value)[1] == "get" and len(a.value.args) == 1}
+
+    def absent_test(v):
+        if isinstance(v, ast.Compare) and len(v.ops) == 1:
+            if isinstance(v.ops[0], ast.NotIn):
+                return True
+            if isinstance(v.ops[0], (ast.Is, ast.Eq)) and isinstance(v.left, ast.Name) and v.left.id in get_alias \
+                    and isinstance(v.comparators[0], ast.Constant) and v.comparators[0].value is None:
+                return True
+        return False
+
+    def present_test(v):
+        return isinstance(v, ast.Compare) and len(v.ops) == 1 and (isinstance(v.ops[0], ast.In) or (
+            isinstance(v.ops[0], (ast.IsNot, ast.NotEq)) and isinstance(v.left, ast.Name) and v.left.id in get_alias
+            and isinstance(v.comparators[0], ast.Constant) and v.comparators[0].value is None))
+
+    def registers(blk):
+        return any(isinstance(a, ast.Assign) and isinstance(a.targets[0], ast.Subscript) for y in blk for a in ast.walk(y))
+
+    def rest_after(g):
+        par = getattr(g, "_parent", None)
+        for f in ("body", "orelse"):
+            blk = getattr(par, f, None)
+            if isinstance(blk, list) and g in blk:
+                return blk[blk.index(g) + 1:]
+        return []
+
+    for g in [x for x in ast.walk(loop) if isinstance(x, ast.If) and ".time" in src(x.test)
+              and any(absent_test(c_) or present_test(c_) for c_ in ast.walk(x.test))]:
         # the branch that accepts the note-on is the one that registers it in a table; its condition is the test or its negation
-        def registers(blk):
-            return any(isinstance(a, ast.Assign) and isinstance(a.targets[0], ast.Subscript) for y in blk for a in ast.walk(y))
-        if registers(g.body) == registers(g.orelse):
+        skips = len(g.body) == 1 and isinstance(g.body[0], ast.Continue) and not g.orelse
+        if skips and registers(rest_after(g)):
+            cond = _Canon().visit_UnaryOp(ast.UnaryOp(op=ast.Not(), operand=g.test))       # `if <reject>: continue` and the rest accepts
+        elif registers(g.body) == registers(g.orelse):
             continue
-        cond = g.test if registers(g.body) else _Canon().visit_UnaryOp(ast.UnaryOp(op=ast.Not(), operand=g.test))
+        else:
+            cond = g.test if registers(g.body) else _Canon().visit_UnaryOp(ast.UnaryOp(op=ast.Not(), operand=g.test))
         parts = cond.values if isinstance(cond, ast.BoolOp) and isinstance(cond.op, ast.Or) else [cond]
-        notin = [v for v in parts if isinstance(v, ast.Compare) and isinstance(v.ops[0], ast.NotIn)]
-        rels = [relation(v, nz) for v in parts if relation(v, nz) is not None and not (isinstance(v, ast.Compare) and isinstance(v.ops[0], (ast.NotIn, ast.In)))]
+        notin = [v for v in parts if absent_test(v)]
+        rels = [relation(v, nz) for v in parts if relation(v, nz) is not None and not absent_test(v) and not present_test(v)]
         n_overlap += 1
         ok = False
         if len(notin) == 1 and len(rels) == 1 and len(parts) == 2:
@@ -301,6 +352,14 @@ def near_rule(ctx: Ctx, fi) -> None:
             # [left[i] + steps[i] for i in range(len(steps))]
             for fl, (_, steps) in floor_lists.items():
                 if e in (f"{fl}[{tv}] + {steps}[{tv}]", f"{steps}[{tv}] + {fl}[{tv}]"):
+                    ceil_lists[c.targets[0].id] = (c, fl)
+        elif isinstance(g.target, ast.Tuple) and len(g.target.elts) == 2 and all(isinstance(x, ast.Name) for x in g.target.elts) \
+                and isinstance(g.iter, ast.Call) and isinstance(g.iter.func, ast.Name) and g.iter.func.id == "zip" and len(g.iter.args) == 2 and not g.ifs:
+            # [left + step for left, step in zip(lefts, steps)]  (either order of the two lists)
+            a_, b_ = g.target.elts[0].id, g.target.elts[1].id
+            za, zb = src(g.iter.args[0]), src(g.iter.args[1])
+            for fl, (_, steps) in floor_lists.items():
+                if {za, zb} == {fl, steps} and esym == Sym.atom(a_) + Sym.atom(b_):
                     ceil_lists[c.targets[0].id] = (c, fl)
         elif tv:
             for fl, (_, steps) in floor_lists.items():
@@ -355,15 +414,24 @@ class _QCase(TypeCase):
         self.opens, self.timings = opens, timings
         self.is_open, self.recorded, self.overlaps = is_open, recorded, overlaps
 
-    @staticmethod
-    def _base(e):
+    def _base(self, e):
         while isinstance(e, ast.Subscript):
             e = e.value
+        if isinstance(e, ast.Name) and e.id in getattr(self, "timing_aliases", ()):
+            return self.timings              # `prev = timings.get(key)`: prev[1] is timings[key][1]
         return e.id if isinstance(e, ast.Name) else None
 
     def truth(self, test, st):
         if isinstance(test, ast.Compare) and len(test.ops) == 1:
             op, c = test.ops[0], test.comparators[0]
+            # `prev is None` / `prev is not None` for `prev = timings.get(key)`: the case says whether an earlier note is recorded
+            if isinstance(test.left, ast.Name) and test.left.id in getattr(self, "timing_aliases", ()) and isinstance(c, ast.Constant) and c.value is None \
+                    and isinstance(op, (ast.Is, ast.IsNot, ast.Eq, ast.NotEq)):
+                v = st.vals.get("$rec", frozenset([self.recorded]))
+                if len(v) == 1:
+                    rec = next(iter(v))
+                    return (not rec) if isinstance(op, (ast.Is, ast.Eq)) else rec
+                return None
             if isinstance(op, (ast.In, ast.NotIn)) and isinstance(c, ast.Name):
                 neg = isinstance(op, ast.NotIn)
                 if c.id == self.opens:
@@ -394,6 +462,15 @@ class _QCase(TypeCase):
         return super().event_for_call(c, st)
 
     def stmt(self, s, st):
+        if isinstance(s, ast.Assign) and len(s.targets) == 1 and isinstance(s.targets[0], ast.Name) and isinstance(s.value, ast.Call) \
+                and call_method(s.value)[1] == "get" and isinstance(call_method(s.value)[0], ast.Name) and call_method(s.value)[0].id == self.timings \
+                and (len(s.value.args) == 1 or (len(s.value.args) == 2 and isinstance(s.value.args[1], ast.Constant) and s.value.args[1].value is None)):
+            self.__dict__.setdefault("timing_aliases", set()).add(s.targets[0].id)
+            return st
+        if isinstance(s, ast.Delete) and len(s.targets) == 1 and isinstance(s.targets[0], ast.Subscript) and self._base(s.targets[0]) == self.opens:
+            st.bump(("open-pop",))            # `del opens[key]` takes the entry out like `opens.pop(key)`
+            st.vals["$open"] = frozenset([False])
+            return st
         if isinstance(s, ast.Assign) and len(s.targets) == 1 and isinstance(s.targets[0], ast.Subscript):
             t, v = s.targets[0], s.value
             is_time = isinstance(v, ast.Attribute) and v.attr == "time" and self.is_msg(v.value, st)
@@ -510,7 +587,9 @@ def remove_rule(ctx: Ctx, fi) -> int:
         exits = tc.run_body(lp.body)
         stores = events_matching(exits, lambda e: e[0] == "substore" and e[1] in tables) or (0, 0)
         pops = events_matching(exits, lambda e: e[0] == "call" and e[1].endswith(".pop") and e[1].split(".")[0] in tables) or (0, 0)
-        adds = events_matching(exits, lambda e: e[0] == "append" and e[1] in tables) or (0, 0)
+        adds_a = events_matching(exits, lambda e: e[0] == "append" and e[1] in tables) or (0, 0)
+        adds_u = events_matching(exits, lambda e: e[0] == "call" and e[1].split(".")[0] in tables and e[1].split(".")[-1] in ("update", "add")) or (0, 0)
+        adds = (adds_a[0] + adds_u[0], adds_a[1] + adds_u[1])
         want = {"NOTE_ON": ((1, 1), (0, 0), (0, 0)), "NOTE_OFF": ((0, 0), (1, 1), (0, 1))}.get(T, ((0, 0), (0, 0), (0, 0)))
         n += 1
         ctx.check((stores, pops, adds) == want, "REMOVE", f"{FN}: removal pass, {T}: records {stores}, takes out {pops}, schedules {adds}", function=FN,
@@ -530,10 +609,10 @@ def remove_rule(ctx: Ctx, fi) -> int:
                 and call_method(a.value)[0].id in tables and isinstance(a.targets[0], ast.Tuple) and len(a.targets[0].elts) == 2:
             jvar, tvar = a.targets[0].elts[0].id, a.targets[0].elts[1].id
             for c in ast.walk(lp):
-                if isinstance(c, ast.Call) and call_method(c)[1] in ("extend", "append") and isinstance(call_method(c)[0], ast.Name) and call_method(c)[0].id in tables:
+                if isinstance(c, ast.Call) and call_method(c)[1] in ("extend", "append", "update", "add") and isinstance(call_method(c)[0], ast.Name) and call_method(c)[0].id in tables:
                     sched = call_method(c)[0].id
                     arg = c.args[0] if c.args else None
-                    both = isinstance(arg, (ast.List, ast.Tuple)) and sorted(src(e) for e in arg.elts) == sorted([jvar, ivar]) and call_method(c)[1] == "extend"
+                    both = isinstance(arg, (ast.List, ast.Tuple, ast.Set)) and sorted(src(e) for e in arg.elts) == sorted([jvar, ivar]) and call_method(c)[1] in ("extend", "update")
                     n += 1
                     ctx.check(both, "REMOVE", f"{FN}: a collapsed note schedules both of its indices", function=FN,
                               construct="removal pass does not schedule exactly the note-on's and the note-off's index",
@@ -550,6 +629,22 @@ def remove_rule(ctx: Ctx, fi) -> int:
     # the removal itself
     sites = grid.shifted_pop_sites(fi.node)
     n += 1
+    if not sites and sched is not None:
+        # the other way to take the scheduled positions out: keep exactly the elements whose index was not scheduled
+        #   [m for i, m in enumerate(result) if i not in scheduled]
+        filt = [c for c in ast.walk(fi.node) if isinstance(c, ast.ListComp) and len(c.generators) == 1 and isinstance(c.generators[0].iter, ast.Call)
+                and src(c.generators[0].iter.func) == "enumerate" and c.generators[0].iter.args and src(c.generators[0].iter.args[0]) == out
+                and isinstance(c.generators[0].target, ast.Tuple) and len(c.generators[0].target.elts) == 2]
+        for c in filt:
+            iv, mv = (x.id for x in c.generators[0].target.elts)
+            ifs = c.generators[0].ifs
+            okf = src(c.elt) == mv and len(ifs) == 1 and isinstance(ifs[0], ast.Compare) and len(ifs[0].ops) == 1 and isinstance(ifs[0].ops[0], ast.NotIn) \
+                and src(ifs[0].left) == iv and src(ifs[0].comparators[0]) == sched
+            installed = any(isinstance(a, ast.Assign) and a.value is c and any(attr_chain(t) == ["self", "_messages"] for t in a.targets) for a in ast.walk(fi.node))
+            ctx.check(okf and installed, "REMOVE", f"{FN}: the result keeps exactly the elements whose index was not scheduled (`{short(c, 60)}`)", function=FN,
+                      construct="the filter that drops the scheduled positions keeps or drops something else", message=short(c, 90), file=fi.file, node=c)
+        if filt:
+            return n
     if not sites:
         ctx.check(False, "REMOVE", f"{FN}: scheduled indices are removed from the result", function=FN,
                   construct="scheduled indices are never removed from the result", message="zero-length notes stay in the sequence", file=fi.file, node=lp)
